@@ -72,6 +72,7 @@ func setup(env *runner.Env) error {
 	seeds = append(seeds, lattice()...)
 	seeds = append(seeds, fieldSweep()...)
 	seeds = append(seeds, inflate()...)
+	seeds = append(seeds, shortLarge()...)
 	nAll = len(seeds)
 	if nBase == 0 {
 		return fmt.Errorf("empty corpus under %s", env.RepoDir)
@@ -89,7 +90,7 @@ func numCases(env *runner.Env) int {
 func init() {
 	runner.Register(&runner.Prop{
 		ID: "C04",
-		Rule: "case = one input byte string x all operations. Inputs: every corpus seed unmutated (repo testdata files, mdat-shrunk variants, every box cut out by the reference walker, upstream fuzz seeds, crafted cross-box layouts: remove-all-of-type, mdat moved, extreme and back-pointing 64-bit mdat sizes), the version x flags x count x truncation lattice of 30 count-bearing box types in the context of the smallest file containing them, a sweep of 13 boundary values over every 32-bit position of the first moof of small fragment files with protection boxes (hand-built moof + mdat without moov at every byte offset; encrypted repo files at 160 word offsets), consistently inflated size fields (a leaf of every container type set to 2^28, 2^31 and 2^32-16 with the same surplus added to all its ancestors), " +
+		Rule: "case = one input byte string x all operations. Inputs: every corpus seed unmutated (repo testdata files, mdat-shrunk variants, every box cut out by the reference walker, upstream fuzz seeds, crafted cross-box layouts: remove-all-of-type, mdat moved, extreme and back-pointing 64-bit mdat sizes), the version x flags x count x truncation lattice of 30 count-bearing box types in the context of the smallest file containing them, a sweep of 13 boundary values over every 32-bit position of the first moof of small fragment files with protection boxes (hand-built moof + mdat without moov at every byte offset; encrypted repo files at 160 word offsets), consistently inflated size fields (a leaf of every container type set to 2^28, 2^31 and 2^32-16 with the same surplus added to all its ancestors), every box type with a 64-bit size header and only the first 0..12 bytes of its payload, " +
 			"then 1..3 stacked structure-aware hostile mutations of a PRNG-chosen seed (word substitution with boundary values biased to count/length offsets, version/flags, size-field corruption, stale ancestor sizes, truncation, child removal/duplication/reordering, remove-all-of-type, renaming, largesize rewrite, wrapping, deep nesting, splicing from a second seed, mass duplication). " +
 			"Operations per input: DecodeFile {normal,lazy} x flags {0,ISM,StartOnMoof,both}, DecodeFileSR x flags, DecodeBox, DecodeBoxSR, DecodeBoxLazyMdat, DecodeFile/DecodeBox through 1-byte and short-chunk readers; on every decoded structure Size, Info at '', all:1, all:2 and a box-specific level string, Encode and EncodeSW (files: both FragEncModes); 1 in 50 inputs through the mp4ff-info binary. " +
 			"Oracle: no panic, no worker death, cpu <= 2 s + 20 us/byte (RUSAGE delta, re-measured 2x before reporting; hard hangs via the watchdog), bytes allocated <= 8 MiB + 1024 B/byte (runtime/metrics /gc/heap/allocs:bytes delta, re-measured). " +
